@@ -332,9 +332,9 @@ def shrink_write(case, still_fails, budget=30):
 
 def generate(tier, seed, salt=0):
     big = tier != "quick"
-    plan = [("parse", 9000 if big else 400), ("malformed", 8000 if big else 330),
-            ("readchunk", 1500 if big else 60), ("serialize", 6000 if big else 300),
-            ("writechunk", 3000 if big else 110)]
+    plan = [("parse", 9000 if big else 360), ("malformed", 8000 if big else 320),
+            ("readchunk", 2000 if big else 50), ("serialize", 6000 if big else 300),
+            ("writechunk", 3000 if big else 100)]
     cases, dist = [], {}
     for mode, n in plan:
         cs, summary = harness(mode, int(seed) + salt, n)
